@@ -594,34 +594,74 @@ func ruleOrder(c *Ctx, r *Rep) {
 	}
 	pv := c.newProv()
 	bk := c.FuncKey(bulk)
-	var put, gen, putArt ssa.CallInstruction
-	for _, ci := range callsIn(bulk) {
-		cc := ci.Common()
-		switch {
-		case cc.IsInvoke() && cc.Method.Name() == "PutConfig":
-			put = ci
-		case cc.IsInvoke() && cc.Method.Name() == "PutBuildArtifact":
-			putArt = ci
-		case cc.StaticCallee() != nil && c.InModule(cc.StaticCallee()) && strings.Contains(cc.StaticCallee().Name(), "Generate"):
-			gen = ci
-		}
+	// the three steps, directly in the loop or inside a module helper called from it
+	type step struct {
+		site  ssa.CallInstruction // the call in BulkUpdate (the step itself or the helper containing it)
+		call  ssa.CallInstruction // the step
+		owner *ssa.Function
 	}
+	find := func(match func(ci ssa.CallInstruction) bool) *step {
+		for _, ci := range callsIn(bulk) {
+			if match(ci) {
+				return &step{ci, ci, bulk}
+			}
+		}
+		for _, ci := range callsIn(bulk) {
+			f := ci.Common().StaticCallee()
+			if f == nil || !c.InModule(f) || f.Blocks == nil {
+				continue
+			}
+			for _, ci2 := range callsIn(f) {
+				if match(ci2) {
+					return &step{ci, ci2, f}
+				}
+			}
+		}
+		return nil
+	}
+	put := find(func(ci ssa.CallInstruction) bool {
+		return ci.Common().IsInvoke() && ci.Common().Method.Name() == "PutConfig"
+	})
+	putArt := find(func(ci ssa.CallInstruction) bool {
+		return ci.Common().IsInvoke() && ci.Common().Method.Name() == "PutBuildArtifact"
+	})
+	genFn := c.Func("generator/db", "GenerateArtifacts")
+	gen := find(func(ci ssa.CallInstruction) bool { return genFn != nil && ci.Common().StaticCallee() == genFn })
 	if put == nil || gen == nil || putArt == nil {
-		r.Undecided("shape:"+bk, c.FnPos(bulk), "PutConfig / GenerateArtifacts / PutBuildArtifact not all found")
+		r.Undecided("shape:"+bk, c.FnPos(bulk), "PutConfig / GenerateArtifacts / PutBuildArtifact not all found in BulkUpdate or a helper it calls")
 		return
 	}
-	r.Check(instrDominates(put, gen) && instrDominates(gen, putArt), "per-change-order|"+bk, c.Pos(gen.Pos()), "store configuration, then generate, then store the artifact", "dominance checked")
+	before := func(a, b *step) bool {
+		if a.site != b.site {
+			return instrDominates(a.site, b.site)
+		}
+		return a.owner == b.owner && instrDominates(a.call, b.call)
+	}
+	r.Check(before(put, gen) && before(gen, putArt), "per-change-order|"+bk, c.Pos(gen.site.Pos()), "store configuration, then generate, then store the artifact", "dominance checked")
 	// all three for the same change of the list, in list order
 	elem := "P(" + bk + "." + bulk.Params[1].Name() + ")[]"
-	for name, ci := range map[string]ssa.CallInstruction{"PutConfig": put, "GenerateArtifacts": gen, "PutBuildArtifact": putArt} {
-		args := ci.Common().Args
-		aliasArg := args[0]
-		if name == "GenerateArtifacts" {
-			aliasArg = args[1]
+	aliasOrigin := func(st *step, argIdx int) []string {
+		if st.owner == bulk {
+			return pv.Origins(st.call.Common().Args[argIdx])
 		}
-		expectSet(r, "same-change|"+name, c.Pos(ci.Pos()), pv.Origins(aliasArg), "for the alias of the change at hand", elem+".Alias")
+		// inside a helper: bind its parameters to the arguments at the call in BulkUpdate
+		bind := map[*ssa.Parameter][]string{}
+		for i, prm := range st.owner.Params {
+			if i < len(st.site.Common().Args) {
+				bind[prm] = pv.Origins(st.site.Common().Args[i])
+			}
+		}
+		pv.binds = append(pv.binds, bind)
+		defer func() { pv.binds = pv.binds[:len(pv.binds)-1] }()
+		return uniq(pv.origins(st.call.Common().Args[argIdx], 0))
 	}
-	expectSet(r, "effective-config-stored|"+bk, c.Pos(put.Pos()), pv.Origins(put.Common().Args[1]), "the planned effective configuration is what gets stored (and hashed)", elem+".EffectiveConfig")
+	for name, sa := range map[string]struct {
+		st  *step
+		idx int
+	}{"PutConfig": {put, 0}, "GenerateArtifacts": {gen, 1}, "PutBuildArtifact": {putArt, 0}} {
+		expectSet(r, "same-change|"+name, c.Pos(sa.st.call.Pos()), aliasOrigin(sa.st, sa.idx), "for the alias of the change at hand", elem+".Alias")
+	}
+	expectSet(r, "effective-config-stored|"+bk, c.Pos(put.call.Pos()), aliasOrigin(put, 1), "the planned effective configuration is what gets stored (and hashed)", elem+".EffectiveConfig")
 	// ascending iteration: the index phi is incremented by one
 	asc := false
 	for _, b := range bulk.Blocks {
@@ -640,12 +680,12 @@ func ruleOrder(c *Ctx, r *Rep) {
 	r.Check(asc, "list-order|"+bk, c.FnPos(bulk), "the change list is processed front to back (issuers were planned before their subjects)", sprintf("%v", asc))
 	// artifact stored = artifact generated
 	okA := false
-	if u, ok := putArt.Common().Args[1].(*ssa.UnOp); ok && u.Op == token.MUL {
-		if ex, ok := u.X.(*ssa.Extract); ok && ex.Index == 0 && ex.Tuple == ssa.Value(gen.(*ssa.Call)) {
+	if u, ok := putArt.call.Common().Args[1].(*ssa.UnOp); ok && u.Op == token.MUL {
+		if ex, ok := u.X.(*ssa.Extract); ok && ex.Index == 0 && ex.Tuple == ssa.Value(gen.call.(*ssa.Call)) {
 			okA = true
 		}
 	}
-	r.Check(okA, "stores-generated-artifact|"+bk, c.Pos(putArt.Pos()), "the artifact stored is the one just generated", putArt.Common().Args[1].String())
+	r.Check(okA, "stores-generated-artifact|"+bk, c.Pos(putArt.call.Pos()), "the artifact stored is the one just generated", putArt.call.Common().Args[1].String())
 }
 
 func ruleEffectDet(c *Ctx, r *Rep) {
